@@ -265,7 +265,7 @@ pub fn run(ctx: &Ctx) -> (Stats, Spec) {
     let parts = util::par_jobs(32, |job| exhaustive_job(job, 32));
     st.merge(crate::report::merge_all(parts));
     st.exhaustive.push("all stacks of <= 3 binders (exists/forall/lfp/gfp on x, y, z; two-name lists; the empty list) around 8 cores, with and without a free copy outside; every construct as the position of the free occurrence under 10 binder contexts".into());
-    let iters = ctx.tier.pick(12_000u64, 800_000u64);
+    let iters = ctx.tier.pick(60_000u64, 800_000u64);
     let parts = util::par_jobs(16, |job| random_job(ctx, job, iters));
     st.merge(crate::report::merge_all(parts));
     let spec = Spec {
